@@ -49,13 +49,16 @@ func (this *C40Encoder) encode(context *EncoderContext) error {
 				lastCharSize, buffer, removed = this.backtrackOneCharacter(context, buffer, removed, lastCharSize)
 			}
 			// Giving characters back may have shrunk the symbol: a single value left over is
-			// only encodable if exactly one codeword remains in the symbol chosen now.
+			// only encodable if exactly one codeword remains in the symbol chosen now, and only
+			// if that value is a whole character (it is re-encoded as one ASCII codeword; the
+			// last value of a shifted or upper-shifted character cannot be split off).
 			for (len(buffer) % 3) == 1 {
 				curCodewordCount = context.GetCodewordCount() + (len(buffer)/3)*2
 				if e := context.UpdateSymbolInfoByLength(curCodewordCount); e != nil {
 					return gozxing.WrapWriterException(e)
 				}
-				if context.GetSymbolInfo().GetDataCapacity()-curCodewordCount == 1 {
+				lastSize, _ := this.encodeChar(context.GetMessage()[context.pos-1], nil)
+				if lastSize == 1 && context.GetSymbolInfo().GetDataCapacity()-curCodewordCount == 1 {
 					break
 				}
 				lastCharSize, buffer, removed = this.backtrackOneCharacter(context, buffer, removed, lastCharSize)
